@@ -181,7 +181,10 @@ def resolve_hooks(node):
 
 def has_oproc(case, node, rule):
     """no object processor is registered for frozen dataclasses (textX needs to
-    store _tx_position on an object to call its processor)"""
+    store _tx_position on an object to call its processor); a metamodel may have no
+    object processors at all (`noprocs`)"""
+    if case["mms"][node["mm"]].get("noprocs"):
+        return False
     cid = node_class(case, node, rule)
     return cid is None or case["classes"][cid]["variant"] != "frozen"
 
@@ -199,7 +202,8 @@ def oproc_hooks(case, node):
 
     for o in root_children(node):
         go(o)
-    out.append(node["oproc"])
+    if has_oproc(case, node, "Model"):
+        out.append(node["oproc"])
     return out
 
 
@@ -524,7 +528,7 @@ class Runner:
         mm.register_scope_providers({"*.*": provider})
         frozen = {self.case["classes"][cid]["rule"] for cid in spec["classes"]
                   if self.case["classes"][cid]["variant"] == "frozen"}
-        procs = {r: (lambda o, r=r: runner.on_oproc(o, r)) for r in RULES if r not in frozen}
+        procs = {} if spec.get("noprocs") else {r: (lambda o, r=r: runner.on_oproc(o, r)) for r in RULES if r not in frozen}
         procs["Val"] = self.on_conv
         mm.register_obj_processors(procs)
         mm.register_model_processor(self.on_mproc)
@@ -897,7 +901,7 @@ FAULTS = [
     ("resolve", "unknown"), ("resolve", "exc"), ("resolve", "postponed"), ("init", "exc"), ("init", "type"),
     ("oproc", "exc"), ("mproc", "main"), ("mproc", "import"), ("act", "propagate"),
 ]
-ROOT_VARIANTS = ["plain", "own_setattr", "own_getattribute", "own_all", "derived"]
+ROOT_VARIANTS = ["plain", "own_setattr", "own_getattribute", "own_all", "derived", "own_getattr"]
 
 
 class Gen:
@@ -1047,6 +1051,8 @@ class Gen:
                 case["classes"].append({"rule": r, "variant": v})
                 cids.append(len(case["classes"]) - 1)
         case["mms"].append({"classes": cids})
+        if rng.chance(0.2):
+            case["mms"][-1]["noprocs"] = True  # no object processors (only the match-rule processor of Val)
         return len(case["mms"]) - 1
 
     def add_acts(self, case, root, level, force_fail=False):
@@ -1127,8 +1133,16 @@ def add_anns(case, rng):
             user = [r for r in reach if node_class(case, node_of[r[0]], r[1]) is not None]
             to, rule, via = rng.choice(user if user and rng.chance(0.75) else reach)
             own = RULE_ATTRS[rule]
-            what = rng.weighted([("extra", 11), ("foreign", 5), ("own", 3 if rule == "Item" and kind != "init" else 0)])
-            if what == "extra":
+            # `parent` on a root object (it has none of its own).  textX navigates by that name (get_model), so
+            # user code can only do this where textX has no more use for it (loading imports, resolving references
+            # of this or of an importing file, locating objects for their processors): in a metamodel without
+            # object processors, from a constructor (a child stores on its container, the root)
+            root_parent = rule == "Model" and kind == "init" and case["mms"][node_of[to]["mm"]].get("noprocs")
+            what = rng.weighted([("extra", 11), ("foreign", 5), ("own", 9 if rule == "Item" and kind != "init" else 0),
+                                 ("parent", 40 if root_parent else 0)])
+            if what == "parent":
+                name = "parent"
+            elif what == "extra":
                 name = rng.choice(EXTRA_NAMES)
             elif what == "foreign":
                 name = rng.choice([x for x in FOREIGN_NAMES if x not in own])
